@@ -5,20 +5,25 @@ import random
 
 from .common import *
 from .core import Ctx, Infra, casehash, log
+from .c08h import history_clause, is_history_replay
 
 
 @pipeline
 def c08(ctx: Ctx):
     ctx.assumptions = [
         "TLC; spec/ResponseCheck.tla (Pick, header rules, MediaSelect, response-side schema reading) as the contract; PickLaws checked by TLC",
-        "harness realiser harness/c08.go (documents built per case and loaded through the real loader; each response-map entry accepts only bodies carrying its own marker property, so the chosen entry is observable through the verdict)",
-        "wildcard content is exercised with JSON bodies only (a declared application/* with a body the library has no decoder for is an implementation limit, not part of the statement)",
+        "spec/HeaderRead.tla: a header text satisfies its schema iff some reading of it (the inverse of the OAS simple style, spec/ParamCodec.tla; TextReadingsSound checked by TLC) is valid; left open (three-valued contract, cases still executed): an empty text / empty piece where the readings 'empty string' and 'no value' differ in verdict, a header on several field lines where the first line and the comma-joined list differ, non-canonical spellings of booleans and numbers, header schemas without a type or with 'not'",
+        "spec/BodyKeep.tla: 'the body stays readable afterwards' over sequential histories of validate(r) / read(r, n) calls in one process (D: design 'copy' => L1; 'pooled', 'drain', 'restore_ok' each refuted)",
+        "harness realiser harness/c08.go, harness/c08h.go (documents built per case and loaded through the real loader; each response-map entry accepts only bodies carrying its own marker property, so the chosen entry is observable through the verdict)",
+        "wildcard content is exercised with JSON bodies only (a declared application/* or */* with a body the library has no decoder for is an implementation limit, not part of the statement)",
     ]
+    if is_history_replay(ctx):
+        return history_clause(ctx)
     cases = os.path.join(ctx.scratch, "cases.ndjson")
     if ctx.replay:
         write_ndjson(cases, [ctx.replay["violation"]["c"]])
     else:
-        ctx.tlc("Gen_C08", "Gen_C08.cfg", label="D PickLaws + F generate cases")
+        ctx.tlc("Gen_C08", "Gen_C08_thorough.cfg" if ctx.tier == "thorough" else "Gen_C08.cfg", label="D PickLaws, TextReadingsSound + F generate cases")
         n = ctx.unquote(ctx.spec("cases.ndjson"), cases)
         log("[gen] %d cases" % n)
         ctx.exhaustive = True
@@ -32,7 +37,11 @@ def c08(ctx: Ctx):
         ctx.nontrivial.add(casehash(o["c"]))
         if rng.random() < 6.0 / 17000:
             ctx.samples.append(dict(c=o["c"], verdict=o.get("verdict")))
-    ctx.rule = ("complete product of spec/Gen_C08.tla: (response maps of <=3 keys out of {200,201,404,2XX,4XX,default} x 12 status codes x GET/HEAD x "
-                "strict-status x which entry's marker the body carries) + (5 header declarations x 4 header texts x 6 content declarations x 4 "
-                "content types x 8 bodies x ExcludeResponseBody x ExcludeWriteOnlyValidations x MultiError); every case is distinct and judged")
-    ctx.validate("Trace_C08", "Trace_C08.cfg", logp, chunk_lines=1500)
+    ctx.rule = ("complete product of spec/Gen_C08.tla: (response maps of <=3 keys out of 8 (11 thorough) x 15 (22) status codes x GET/HEAD x strict-status x which "
+                "entry's marker the body carries) + (header declarations x header texts x 7 content declarations x 5 content types x bodies x ExcludeResponseBody x "
+                "ExcludeWriteOnlyValidations x MultiError) + body schema behind 6 wraps + part hdr (spec/HeaderUniverse.tla: 19 header schemas x 34 texts x required x "
+                "explode x options; two declared headers; undeclared header; two field lines; a definition named Content-Type; $ref / nil-Options variants) + every history "
+                "of spec/BodyKeep.tla (validate / read calls over 2-3 responses); every case is distinct and judged")
+    ctx.validate("Trace_C08", "Trace_C08.cfg", logp, chunk_lines=max(1500, ctx.evaluations // 32 + 1))
+    if not ctx.replay:
+        history_clause(ctx)
